@@ -71,6 +71,9 @@ func (n *Nodis) SDiffStore(destination string, keys ...string) int64 {
 	}
 	members := n.SDiff(keys...)
 	n.Del(destination)
+	if len(members) == 0 {
+		return 0
+	}
 	return n.SAdd(destination, members...)
 }
 
@@ -109,6 +112,9 @@ func (n *Nodis) SInterStore(destination string, keys ...string) int64 {
 	}
 	members := n.SInter(keys...)
 	n.Del(destination)
+	if len(members) == 0 {
+		return 0
+	}
 	return n.SAdd(destination, members...)
 }
 
@@ -145,6 +151,9 @@ func (n *Nodis) SUnionStore(destination string, keys ...string) int64 {
 	}
 	members := n.SUnion(keys...)
 	n.Del(destination)
+	if len(members) == 0 {
+		return 0
+	}
 	return n.SAdd(destination, members...)
 }
 
@@ -185,6 +194,9 @@ func (n *Nodis) SRem(key string, members ...string) int64 {
 			return nil
 		}
 		v = meta.value.(*set.Set).SRem(members...)
+		if meta.value.(*set.Set).SCard() == 0 {
+			tx.delKey(key)
+		}
 		n.signalModifiedKey(key, meta)
 		n.notify(func() []patch.Op {
 			return []patch.Op{{Type: patch.OpTypeSRem, Data: &patch.OpSRem{Key: key, Members: members}}}
@@ -221,6 +233,9 @@ func (n *Nodis) SPop(key string, count int64) []string {
 			count = 1
 		}
 		v = meta.value.(*set.Set).SPop(count)
+		if meta.value.(*set.Set).SCard() == 0 {
+			tx.delKey(key)
+		}
 		n.signalModifiedKey(key, meta)
 		n.notify(func() []patch.Op {
 			return []patch.Op{{Type: patch.OpTypeSRem, Data: &patch.OpSRem{Key: key, Members: v}}}
@@ -241,6 +256,9 @@ func (n *Nodis) SMove(source, destination, member string) bool {
 		m := meta.value.(*set.Set).SRem(member)
 		if m == 0 {
 			return nil
+		}
+		if meta.value.(*set.Set).SCard() == 0 {
+			tx.delKey(source)
 		}
 		n.signalModifiedKey(source, meta)
 		meta = tx.writeKey(destination, n.newSet)
